@@ -329,6 +329,13 @@ MUTATIONS += [
     dict(id="C19-clean-unlisted-files-kept", prop="C19", file=CAF, old="        for id in list_cache.keys() {\n            self.remove(tpe, id)?;\n        }\n        Ok(())", new="        Ok(())"),
 ]
 
+RIXF = "crates/core/src/commands/repair/index.rs"
+MUTATIONS += [
+    dict(id="C12-repairindex-marked-becomes-live", prop="C12", file=RIXF, old="                        new_index.add(p, to_delete);", new="                        new_index.add(p, false);"),
+    dict(id="C12-repairindex-drop-not-flagged", prop="C12", file=RIXF, old="                    debug!(\"removing non-existing pack {id} from index\");\n                    changed = true;", new="                    debug!(\"removing non-existing pack {id} from index\");"),
+    dict(id="C12-repairindex-sound-pack-reread", prop="C12", file=RIXF, old="                    if index_size != size || read_all {", new="                    if index_size >= size || read_all {"),
+]
+
 HARMLESS = [
     dict(id="H-C05-trees-symlink-continue", prop="C05", file=CK, old="        for node in tree.nodes {\n            match node.node_type {", new="        for node in tree.nodes {\n            if node.node_type == NodeType::Symlink {\n                continue;\n            }\n            match node.node_type {"),
     # independent statements reordered
